@@ -670,15 +670,16 @@ func (h *H) cwRun(loc int, cps uint64, tempKind int, failAt int, nOps int, mode 
 	replay := strings.Join(trace, "\n")
 	d, chunks, bad := sChunks(file)
 	if bad != "" {
-		if len(accepted) == 0 && len(resources) > 0 && loc == 0 && bad == "root-cptrmax" {
-			// Outside C13's statement (rac.Writer never adds a resource without a chunk when
-			// Close returns nil), so counted and noted, not failed: ChunkWriter.Close with
-			// resources but no chunk appends the fixed 32-byte empty RAC file although the
-			// magic and the resources were already written; CPtrMax (32) != CFileSize.
-			r.Count("cw:observation:resources-without-chunks-gives-invalid-file")
+		if len(accepted) == 0 && loc == 0 && bad == "root-cptrmax" {
+			// Outside C13's statement (a rac.Writer whose Close returns nil has added a chunk
+			// for every resource, and records an AddChunk error), so counted and noted, not
+			// failed: ChunkWriter{IndexLocationAtEnd}.Close with no accepted chunk appends the
+			// fixed 32-byte empty RAC file although the magic (and any resources) were already
+			// written by an earlier AddResource / rejected AddChunk; CPtrMax (32) != CFileSize.
+			r.Count("cw:observation:no-chunk-but-initialized-gives-invalid-file")
 			if !h.notedResOnly {
 				h.notedResOnly = true
-				r.Note("observation (outside the property): ChunkWriter{IndexLocationAtEnd}: AddResource, Close with no AddChunk returns nil but the file is not a valid RAC file (root CPtrMax 32 != CFileSize); input findings/C13/resources-without-chunks.ops")
+				r.Note("observation (outside the property): ChunkWriter{IndexLocationAtEnd}: AddResource (or an AddChunk rejected with errInvalidCodec), then Close with no accepted chunk returns nil but the file is not a valid RAC file (root CPtrMax 32 != CFileSize); inputs findings/C13/resources-without-chunks.ops, findings/C13/rejected-chunk-then-close.ops")
 			}
 			return
 		}
@@ -1083,7 +1084,9 @@ func (c *realCase) describe() string {
 		realCodecs[c.codec].name, c.loc, c.cps, c.tempKind, c.failAt, c.cchunk, c.dchunk, strings.Join(rs, ","), strings.Join(ps, " "), hlib.Hex(c.payload))
 }
 
-func (c *realCase) fail(key, desc string) { c.fails = append(c.fails, [3]string{key, desc, c.describe()}) }
+func (c *realCase) fail(key, desc string) {
+	c.fails = append(c.fails, [3]string{key, desc, c.describe()})
+}
 
 func (c *realCase) run(scratch string, idx int) {
 	rc := realCodecs[c.codec]
